@@ -8,7 +8,7 @@ EXTENDS Integers, Sequences, FiniteSets, TLC, Json
 
 (***************************************************************************)
 (* Values.  Context: Dict [k |-> "D", m |-> function from keys] or Leaf    *)
-(* [k |-> "L", t |-> "int" | "str" | "none" | "bool" | "list" (empty), n |-> *)
+(* [k |-> "L", t |-> "int" | "str" | "none" | "bool" | "list" | "tuple" (of n items "x"), n |-> *)
 (* integer value (0 otherwise), v |-> str(value)].  Data: [t |-> "int" |   *)
 (* "bool" | "str" | "none" | "tuple", n |-> value (length for str/tuple)].  Flow value: [d, c, h] (h: a (data, context)     *)
 (* pair; otherwise the context is empty).                                  *)
@@ -20,6 +20,13 @@ LStr(v) == [k |-> "L", t |-> "str", n |-> 0, v |-> v]
 LNone == [k |-> "L", t |-> "none", n |-> 0, v |-> "None"]
 LFalse == [k |-> "L", t |-> "bool", n |-> 0, v |-> "False"]
 LList == [k |-> "L", t |-> "list", n |-> 0, v |-> "[]"]
+\* scalars that *contain* what a string specification tests for at its last level without being equal to
+\* it: a longer string, a list / tuple of n items "x" (v: str() of the value, as for every leaf)
+LListX == [k |-> "L", t |-> "list", n |-> 1, v |-> "['x']"]
+LTupX == [k |-> "L", t |-> "tuple", n |-> 2, v |-> "('x', 'x')"]
+\* the strings of the universes in which "x" occurs
+HasXStr(v) == v \in {"x", "xy", "yx", "x y"}
+IsSeqLeaf(s) == s.k = "L" /\ s.t \in {"list", "tuple"}
 Empty == Dict(<<>>)
 Absent == [k |-> "A"]
 Val(t, n, c, h) == [d |-> [t |-> t, n |-> n], c |-> c, h |-> h, sub |-> ""]   \* sub: shape hint for the harness
@@ -99,22 +106,22 @@ PredEval(q, s) ==
     [] q = "eq1" -> B(Num(s) /\ s.n = 1)                                   \* sub == 1
     [] q = "gt0" -> IF Num(s) THEN B(s.n > 0) ELSE "E"                     \* sub > 0 (TypeError otherwise)
     [] q = "hasx" -> IF s.k = "D" THEN B("x" \in DOMAIN s.m)               \* "x" in sub
-                     ELSE IF s.t = "str" THEN B(s.v = "x")
-                     ELSE IF s.t = "list" THEN "F" ELSE "E"
+                     ELSE IF s.t = "str" THEN B(HasXStr(s.v))                \* a substring test
+                     ELSE IF IsSeqLeaf(s) THEN B(s.n > 0) ELSE "E"
     [] q = "truthy" -> IF s.k = "D" THEN B(s.m # <<>>)                     \* bool(sub)
-                       ELSE IF Num(s) THEN B(s.n # 0)
+                       ELSE IF Num(s) \/ IsSeqLeaf(s) THEN B(s.n # 0)
                        ELSE IF s.t = "str" THEN B(s.v # "") ELSE "F"
     [] q = "always" -> "T"
     [] q = "boom" -> "E"
     \* predicates that are classes: they are *called* with the sub-context (not used for an isinstance test)
     [] q = "cbool" -> IF s.k = "D" THEN B(s.m # <<>>)                      \* bool(sub)
-                      ELSE IF Num(s) THEN B(s.n # 0)
+                      ELSE IF Num(s) \/ IsSeqLeaf(s) THEN B(s.n # 0)
                       ELSE IF s.t = "str" THEN B(s.v # "") ELSE "F"
     [] q = "cstr" -> IF s.k = "L" /\ s.t = "str" THEN B(s.v # "") ELSE "T"  \* str(sub): "None", "0", "{}", "[]" are not empty
     [] q = "cint" -> IF Num(s) THEN B(s.n # 0)                             \* int(sub)
-                     ELSE IF s.k = "L" /\ s.t = "str" /\ s.v \in {"5", "1"} THEN "T" ELSE "E"
+                     ELSE IF s.k = "L" /\ s.t = "str" /\ s.v \in {"5", "1", "55"} THEN "T" ELSE "E"
     [] q = "cdict" -> IF s.k = "D" THEN B(s.m # <<>>)                      \* dict(sub)
-                      ELSE IF s.t = "list" \/ (s.t = "str" /\ s.v = "") THEN "F" ELSE "E"
+                      ELSE IF (IsSeqLeaf(s) /\ s.n = 0) \/ (s.t = "str" /\ s.v = "") THEN "F" ELSE "E"
     [] q = "cuser" -> "T"                                                  \* an instance of a user class
 
 (***************************************************************************)
